@@ -289,8 +289,12 @@ def plan(tier, seed):
     for scn in (d0[:1] if tier == "quick" else d0):
         for p in range(8):
             specs.append({"mode": "enum2", "shape": "stale-readable", "scn": scn, "part": p, "parts": 8, "window": 40 if tier == "quick" else 80})
-    # (the shape "body-into-lock-window" is kept for replays; a third pre-emption is needed for its scenarios to
-    # show anything -- see DESIGN.md 9 -- so it is not part of the plan)
+    if tier != "quick":
+        # three chained pre-emptions around the worker's failing 100 Continue (DESIGN.md 9: has not shown
+        # anything yet; kept in the thorough tier only)
+        for scn in [d for d in directed() if d.get("arrival") == "body-after-response"]:
+            for p in range(2):
+                specs.append({"mode": "enum2", "shape": "lock-window-3", "scn": scn, "part": p, "parts": 2})
     d3 = [d for d in directed() if d.get("small_reads")]
     if tier == "quick":
         d3 = d3[:2]
@@ -525,6 +529,21 @@ def run_shard(spec):
                 return isinstance(site, tuple) and (site[0] == "service" or site[0] in ("lock", "unlock"))
 
             gen = runner.double_preemptions(scn, first, window=spec.get("window", 60), second="target", second_filter=second)
+        elif spec.get("shape") == "lock-window-3":
+            # three pre-emptions (DESIGN.md 7): (1) the worker has sent the response in front of the expecting
+            # request M; the client, which has seen it, sends M's body.  (2) The worker is about to write M's
+            # 100 Continue at the end of service() -- holding requests_lock; the write will fail -- when the I/O
+            # thread reads the body and waits for that lock.  (3) The I/O thread has queued what it read; the
+            # worker runs before the I/O thread gets to close the connection.
+            def tup(names):
+                return lambda site: isinstance(site, tuple) and site[0] in names
+
+            stages = [
+                {"site": tup(("service", "finish", "close", "execute")), "from": "worker", "to": "actor", "limit": 6, "stride": 7},
+                {"site": tup(("send_continue",)), "from": "worker", "to": "io", "limit": 8},
+                {"site": tup(("add_task", "received")), "from": "io", "to": "worker", "limit": 25},
+            ]
+            gen = runner.chained_preemptions(scn, stages, setup=fault_step_setup, prefer_role="worker")
         elif spec.get("shape") == "body-into-lock-window":
             # first pre-emption: the worker has sent the response in front of the expecting request and is on its
             # way to the end of service(); the client, which has seen that response, sends the body.  Second
@@ -563,7 +582,7 @@ def run_shard(spec):
             k += 1
             if k % spec["parts"] != spec["part"]:
                 continue
-            run_one(acc, scn, {"kind": "forced", "switches": sw}, "forced2")
+            run_one(acc, scn, sw if "kind" in sw else {"kind": "forced", "switches": sw}, "forced2")
         acc.sample({"double_preemption_scenario": scn, "schedules": k})
     else:
         scn = spec["scn"]
